@@ -106,7 +106,10 @@ def _cat(I, parts):
         elif isinstance(p, SOpaque):
             t = REG.str_of(I, p).t
         else:
-            t = str_term(p)
+            try:
+                t = str_term(p)
+            except Exception:      # any other value (a float, an array, ...) formatted into a message: some string
+                t = I.ctx.fresh("str.of_value", z3.IntSort())
         acc = t if acc is None else f(acc, t)
     return SStr(acc)
 
